@@ -1,6 +1,6 @@
 SPECIFICATION Spec
 CONSTANTS
-  Lengths <- LenAll
+  Lengths <- LenDense
   CWidths = {9, 16, 37, 77}
   MaxArrs = 1
   SeekBackF = 31
